@@ -31,6 +31,7 @@ use h_util::{arg, json_str, Rng};
 use refsql_gen::*;
 
 type Rule = Arc<dyn OptimizerRule + Send + Sync>;
+const VARIANT_SECS: u64 = 20;
 
 // ---------------------------------------------------------------- tables (as in c01.rs)
 fn column(t: Ty, vals: &[&V]) -> ArrayRef {
@@ -278,11 +279,11 @@ fn c03_outer(g: &mut Gen) -> Q {
         q = Q::Join(k2, on2, Box::new(q), Box::new(r2));
     }
     let wl = tl.len();
-    let p = match g.rng.below(12) {
+    let p = match g.rng.below(13) {
         0 | 1 | 2 => { let p = g.pred(&ts[wl..].to_vec(), 2); Some(shift_cols(&p, wl)) }   // right side only
         3 | 4 => Some(g.pred(&tl, 2)),                                                       // left side only
         5 | 6 => Some(g.pred(&ts, 2)),
-        7 => Some(E::IsNull(false, bx(E::Col(0, wl + g.rng.below(tr.len() as u64) as usize)))),
+        7 | 11 => Some(E::IsNull(false, bx(E::Col(0, wl + g.rng.below(tr.len() as u64) as usize)))),   // the anti-join idiom
         8 => Some(E::IsNull(false, bx(E::Col(0, g.rng.below(wl as u64) as usize)))),
         9 => { let a = g.pred(&ts[wl..].to_vec(), 1); let b_ = g.pred(&tl, 1); Some(if g.rng.chance(1, 2) { E::Or(bx(shift_cols(&a, wl)), bx(b_)) } else { E::And(bx(shift_cols(&a, wl)), bx(b_)) }) }
         10 => Some(E::Not(bx(E::IsNull(g.rng.chance(1, 2), bx(E::Col(0, wl + g.rng.below(tr.len() as u64) as usize)))))),
@@ -406,6 +407,14 @@ fn witnesses() -> Vec<(&'static str, Vec<Tab>, Q)> {
     let t5 = Tab { types: vec![Ty::Int, Ty::Int], parts: 1, rows: vec![vec![iv(1), iv(1)], vec![iv(2), V::Null]] };
     let q5 = Q::Group(vec![], vec![(Agg::CountStar, E::Lit(V::I(1), Ty::Int))], Some(E::Lit(V::B(false), Ty::Bool)), Box::new(Q::Table(0)));
     w.push(("witness_having_const", vec![t5], q5));
+    // C01-KF5: physical filter pushdown below a RIGHT JOIN resolves the other input's columns by name (target_partitions = 1)
+    let t5a = Tab { types: vec![Ty::Int, Ty::Int, Ty::Str], parts: 3, rows: vec![
+        vec![iv(2), iv(-1), sv("a")], vec![iv(2), iv(2), sv("")], vec![iv(2), iv(1), V::Null], vec![V::Null, iv(1), sv("b")], vec![iv(-1), iv(2), V::Null], vec![iv(1), V::Null, sv("a")]] };
+    let t5b = Tab { types: vec![Ty::Int, Ty::Int, Ty::Str], parts: 1, rows: vec![
+        vec![V::Null, iv(3), sv("c")], vec![V::Null, iv(-1), sv("a")], vec![V::Null, iv(-1), V::Null], vec![V::Null, iv(1), sv("")]] };
+    let w5 = E::And(bx(E::Distinct(false, bx(E::Col(0, 5)), bx(E::Lit(sv("a"), Ty::Str)))), bx(E::Distinct(true, bx(E::Col(0, 1)), bx(E::Col(0, 4)))));
+    let j5 = Q::Filter(w5, Box::new(Q::Join(JK::Right, E::Cmp("=", bx(E::Col(0, 0)), bx(E::Col(0, 4))), Box::new(Q::Table(1)), Box::new(Q::Table(0)))));
+    w.push(("witness_c01_kf5", vec![t5a, t5b], Q::Project(vec![E::Col(0, 5)], Box::new(j5))));
     // correlated NOT IN: the null-aware anti join looks for NULLs in the whole subquery input, ignoring the correlation filter
     let t8a = Tab { types: vec![Ty::Int, Ty::Bool, Ty::Int], parts: 1, rows: vec![vec![V::Null, V::B(true), iv(0)]] };
     let t8b = Tab { types: vec![Ty::Int, Ty::Int], parts: 1, rows: vec![vec![iv(0), iv(2)], vec![iv(2), iv(3)], vec![V::Null, V::Null], vec![iv(0), iv(1)], vec![V::Null, iv(3)]] };
@@ -473,10 +482,16 @@ async fn run_case(ctx: &SessionContext, sql: &str, q: &Q, explain: bool) -> Resu
                             eprintln!("--- {} (plan #{})\n{}", v.name, plans.len(), p.display_indent());
                             if let Ok(pp) = state.query_planner().create_physical_plan(&p, &state).await { eprintln!("  physical:\n{}", datafusion::physical_plan::displayable(pp.as_ref()).indent(false)); }
                         }
-                        let o = match AssertUnwindSafe(run_plan(&state, &p)).catch_unwind().await {
-                            Ok(o) => o,
-                            Err(pn) => Out::Err(format!("panic: {}", panic_msg(&pn))),
-                        };
+                        // every variant gets VARIANT_SECS (C01-KF6: hash joins intermittently never finish); a timed-out variant is retried once
+                        let mut o = Out::Err(String::new());
+                        for attempt in 0..2 {
+                            o = match tokio::time::timeout(std::time::Duration::from_secs(VARIANT_SECS), AssertUnwindSafe(run_plan(&state, &p)).catch_unwind()).await {
+                                Ok(Ok(o)) => o,
+                                Ok(Err(pn)) => Out::Err(format!("panic: {}", panic_msg(&pn))),
+                                Err(_) => Out::Err(format!("timeout: the plan did not finish within {VARIANT_SECS} s (attempt {})", attempt + 1)),
+                            };
+                            if !matches!(&o, Out::Err(e) if e.starts_with("timeout:")) { break; }
+                        }
                         plans.push((p, o));
                         plans.len() - 1
                     }
@@ -544,7 +559,7 @@ fn main() {
     for id in -nw..(n as i64) {
         let (stream, tabs, tp, bs, q): (String, Vec<Tab>, usize, usize, Q) = if id < 0 {
             let (name, tabs, q) = wit[(id + nw) as usize].clone();
-            (name.to_string(), tabs, 2, 8192, q)
+            (name.to_string(), tabs, if name == "witness_c01_kf5" { 1 } else { 2 }, 8192, q)
         } else {
             let si = (id as u64 % nstreams) as usize;
             let stream = if si < STREAMS.len() { STREAMS[si] } else { C03_STREAMS[si - STREAMS.len()] };
